@@ -453,10 +453,19 @@ def run(ctx: Ctx, tier: str) -> Result:
             if isinstance(el, ast.Call):
                 tg_ = t.resolve_call(el, f_).repo
                 if tg_ and cv not in tg_:
-                    never_none = all(r.value is not None and (
-                        (isinstance(r.value, ast.Call) and any(e.endswith(".AnyValue") for e in t.resolve_call(r.value, g_).ext)) or
-                        (isinstance(r.value, ast.IfExp) and any(" is None" in norm(r.value.test) or " is not None" in norm(r.value.test) for _ in [0])))
-                        for g_ in tg_ for r in t.nodes_in(g_, ast.Return))
+                    def _not_none(r, g_):
+                        if r.value is None:
+                            return False
+                        if isinstance(r.value, ast.Call) and any(e.endswith(".AnyValue") for e in t.resolve_call(r.value, g_).ext):
+                            return True
+                        if isinstance(r.value, ast.IfExp) and (" is None" in norm(r.value.test) or " is not None" in norm(r.value.test)):
+                            return True
+                        # `if x is None: return AnyValue()` ... `return x` - the value returned under the negated None test
+                        if isinstance(r.value, ast.Name):
+                            return any((norm(c_) == "%s is None" % r.value.id and not pol) or (norm(c_) == "%s is not None" % r.value.id and pol)
+                                       for c_, pol in paths.conditions(p, r, g_))
+                        return False
+                    never_none = all(_not_none(r, g_) for g_ in tg_ for r in t.nodes_in(g_, ast.Return))
             elif isinstance(el, (ast.BoolOp, ast.IfExp)):
                 never_none = any(isinstance(n_, ast.Call) and any(e.endswith(".AnyValue") for e in t.resolve_call(n_, f_).ext) for n_ in ast.walk(el))
             if never_none:
@@ -598,4 +607,7 @@ def run(ctx: Ctx, tier: str) -> Result:
             res.ok("C08.AUTH", {"cache assigned after the provider was asked": norm(st)[:70]})
     from .common import borrow
     borrow(ctx, res, tier, "c06", ("C06.TEXT",), "C08.TEXT", "the message survives serialisation: text derived from the program's values is made encodable where it is produced (lone surrogates)")
+    from .common import borrow
+    borrow(ctx, res, tier, "c02", ("C02.SNAP",), "C08.SOURCE", "a watch result is built with its source and its expression in their own places (the source is what the wire enum is looked up "
+           "with: an expression text there makes the conversion of the whole snapshot fail); the tracepoint's line is a number the wire field can hold")
     return res
